@@ -221,8 +221,10 @@ class Sys(object):
         ffi, lib = self.ffi, self.lib
         name = op[0]
         if not self.closed:
-            # ---- library open: ordinary semantics (not the subject of the statement: a failure here is a
-            # ---- failure of the harness' assumptions and stops the run with exit status 2)
+            # ---- library open: ordinary semantics.  The statement is about the closed library, but every history
+            # ---- opens a fresh private copy, so an operation that fails here can only be the after-effect of an
+            # ---- earlier close in this process (e.g. a handle closed twice takes a later library with it):
+            # ---- reported under its own kind.
             self.last_class = "open/" + name
             try:
                 if name == "getf":
@@ -233,11 +235,12 @@ class Sys(object):
                     r = lib.c37_f(3)
                     self.fetched.add("f")
                     if r != 3 + self.val["v"]:
-                        raise InfraError("open library: f(3) = %r, model %r" % (r, 3 + self.val["v"]))
+                        return self._bad("open-library-op-failed", what="f(3) = %r, model %r" % (r, 3 + self.val["v"]))
                 elif name == "rd":
                     r = getattr(lib, CNAME[op[1]])
                     if r != self.val[op[1]]:
-                        raise InfraError("open library: %s reads %r, model %r" % (op[1], r, self.val[op[1]]))
+                        return self._bad("open-library-op-failed",
+                                         what="%s reads %r, model %r" % (op[1], r, self.val[op[1]]))
                 elif name == "wr":
                     setattr(lib, CNAME[op[1]], WVAL[op[1]])
                     self.val[op[1]] = WVAL[op[1]]
@@ -246,14 +249,14 @@ class Sys(object):
                     self.held[("a", op[1], len(self.held))] = r
                     if op[1] in VARS:
                         if r[0] != self.val[op[1]]:
-                            raise InfraError("open library: *addressof(%s) = %r" % (op[1], r[0]))
+                            return self._bad("open-library-op-failed", what="*addressof(%s) = %r" % (op[1], r[0]))
                         self.addr.add(op[1])
                     else:
                         self.fetched.add(op[1])
                 elif name == "dir":
                     r = dir(lib)
                     if not set(CNAME.values()) <= set(r):
-                        raise InfraError("open library: dir(lib) = %r" % (r,))
+                        return self._bad("open-library-op-failed", what="dir(lib) = %r" % (r,))
                 elif name == "close":
                     try:
                         ffi.dlclose(lib)
@@ -268,7 +271,9 @@ class Sys(object):
             except InfraError:
                 raise
             except Exception as e:
-                raise InfraError("operation %r failed on the open library (%s mode): %r" % (op, self.mode, e))
+                return self._bad("open-library-op-failed", error=repr(e),
+                                 note="the library of this history is a fresh private copy; the cause may be a close "
+                                      "performed by an earlier history of the same worker process")
             return None
 
         # ---- library closed ----------------------------------------------------------------------------
@@ -486,7 +491,9 @@ def run(ctx):
     return ctx.finish(cov, [
         "each history dlopen()s a private copy of the test library; the loader reports it unmapped after the first "
         "dlclose (RTLD_NOLOAD probe through _ctypes, counted in class_histogram close/first/unmapped)",
-        "operations on the still-open library are expected to work (their failure is a harness error, exit 2)",
+        "operations on the still-open library are expected to work; a failure is reported under its own kind "
+        "(open-library-op-failed): with a fresh private copy per history it can only be the after-effect of an earlier "
+        "close in the same process",
         "after the close, lib.f / addressof(lib, x) for symbols already fetched before the close may return or raise "
         "(not compared); function objects and pointers obtained before the close are kept alive but never used",
         "in in-line mode the FFI object is shared by the histories of one worker process; its private list of opened "
